@@ -191,6 +191,17 @@ pub fn workload(tier: Tier, progs: &[Prog]) -> Vec<Work> {
             }
         }
     }
+    // E: every 16-bit value into a register and into a memory word (the value path of `move`)
+    for v in 0..=0xFFFFu16 {
+        w.push(Work { prog: 0, pre: 0, action: Action::of(Cmd::MoveReg((v % 8) as u8, v)), space: "E/every-value" });
+        let mem = Cmd::MoveMem(Loc::Label("data".to_string(), 0), v);
+        let action = match v % 3 {
+            0 => Action::of(mem),
+            1 => Action::spelled(&format!("move data {v}"), mem),
+            _ => Action::spelled(&format!("move data #{}", v as i16), mem),
+        };
+        w.push(Work { prog: (v % 2) as usize, pre: 1, action, space: "E/every-value" });
+    }
     // D: inspection commands never change anything
     for pi in 0..4 {
         for pre in 0..3 {
@@ -255,20 +266,72 @@ pub fn run(ctx: &Ctx) -> i32 {
             }
         }
     });
-    let acc = Acc::merge_all(parts);
+    let mut acc = Acc::merge_all(parts);
+    // F: what `print` shows for every 16-bit value in a register and in a memory word
+    let parts = pooled(Some(Env::new(true)), 65536 / 64, 1, Acc::new, |acc, b| {
+        for v in (b * 64) as u32..(b * 64 + 64) as u32 {
+            let v = v as u16;
+            acc.eval("F/print-every-value");
+            let acts = [Action::of(Cmd::MoveReg(3, v)), Action::of(Cmd::PrintReg(3)), Action::of(Cmd::MoveMem(Loc::Label("data".to_string(), 0), v)), Action::of(Cmd::PrintMem(Loc::Label("data".to_string(), 0)))];
+            let actions: Vec<&Action> = acts.iter().collect();
+            let judge = || -> Option<(String, String)> {
+                let obs = match run_real(&progs[0], &actions, Tail::Exit, true) {
+                    Ok(o) => o,
+                    Err((sig, what)) => return Some((format!("print/{sig}"), what)),
+                };
+                let shown: Vec<&str> = obs.dbg.lines().map(|l| l.trim()).filter(|l| l.len() == 5 && l.starts_with('x')).collect();
+                let want = format!("x{v:04x}");
+                if shown.len() != 2 || shown.iter().any(|l| !l.eq_ignore_ascii_case(&want)) {
+                    return Some(("print/shows-another-value".into(), format!("`move r3 x{v:04x}; print r3; move data x{v:04x}; print data` printed {shown:?}, expected {want} twice")));
+                }
+                None
+            };
+            let mut r = judge();
+            if r.is_some() {
+                r = confirm_fresh(judge);
+            }
+            match r {
+                None => {
+                    acc.nontrivial();
+                    acc.gate("printed-value-read-back");
+                }
+                Some((sig, what)) => {
+                    acc.outcome(format!("violation:{sig}"));
+                    acc.violation(format!("C13/{sig}"), what, json!({"print_value": v}));
+                }
+            }
+        }
+    });
+    for p in parts {
+        acc.merge(p);
+    }
     finish(
         ctx,
         acc,
         Level { category: "model_checking", bfs: None },
-        "bounded-exhaustive enumeration, one real debugger session per (program, pre-history, command): A every absolute address 0..xFFFF (stride 7 in quick) x {move, goto, break add, break remove} in hex and decimal spelling at origins x3000 and x0200 (thorough: also x7FFE, xFDF0), from three pre-histories (initial; after two instructions; with a breakpoint and a changed register); B label+/-offset on four labels and ^offset with offsets at the signed-16-bit boundaries and those landing exactly on origin-1, origin, xFDFF, xFE00, xFFFF, x10000, 0, -1, at four origins incl. one whose labels straddle x8000, plus offsets that overflow 16 bits, unknown and case-differing labels; C move into each register x 9 boundary values x 3 spellings; D every inspection command. Oracle: the reference computes targets in the integers: outside [origin, xFE00) => refused and registers, PC, CC, all 65,536 memory words and the breakpoint list are unchanged; inside => exactly the named word / register / PC / breakpoint changes. non-trivial = sessions that agreed",
+        "bounded-exhaustive enumeration, one real debugger session per (program, pre-history, command): A every absolute address 0..xFFFF (stride 7 in quick) x {move, goto, break add, break remove} in hex and decimal spelling at origins x3000 and x0200 (thorough: also x7FFE, xFDF0), from three pre-histories (initial; after two instructions; with a breakpoint and a changed register); B label+/-offset on four labels and ^offset with offsets at the signed-16-bit boundaries and those landing exactly on origin-1, origin, xFDFF, xFE00, xFFFF, x10000, 0, -1, at four origins incl. one whose labels straddle x8000, plus offsets that overflow 16 bits, unknown and case-differing labels; C move into each register x 9 boundary values x 3 spellings; D every inspection command; E every 16-bit value moved into a register and into a memory word (three spellings); F `print` of a register and of a memory word after every 16-bit value was moved there shows that value. Oracle: the reference computes targets in the integers: outside [origin, xFE00) => refused and registers, PC, CC, all 65,536 memory words and the breakpoint list are unchanged; inside => exactly the named word / register / PC / breakpoint changes. non-trivial = sessions that agreed",
         true,
-        &["refused-and-unchanged", "accepted-and-exact"],
+        &["refused-and-unchanged", "accepted-and-exact", "printed-value-read-back"],
         &["reference = refmodel::dbg (targets computed in the integers)"],
         json!({}),
     )
 }
 
 pub fn replay(ctx: &Ctx, case: &Value) -> Option<Option<String>> {
+    if let Some(v) = case["print_value"].as_u64() {
+        let v = v as u16;
+        let progs = programs13();
+        let acts = [Action::of(Cmd::MoveReg(3, v)), Action::of(Cmd::PrintReg(3)), Action::of(Cmd::MoveMem(Loc::Label("data".to_string(), 0), v)), Action::of(Cmd::PrintMem(Loc::Label("data".to_string(), 0)))];
+        let actions: Vec<&Action> = acts.iter().collect();
+        return Some(confirm_fresh(|| match run_real(&progs[0], &actions, Tail::Exit, true) {
+            Ok(obs) => {
+                let shown: Vec<String> = obs.dbg.lines().map(|l| l.trim().to_string()).filter(|l| l.len() == 5 && l.starts_with('x')).collect();
+                let want = format!("x{v:04x}");
+                if shown.len() != 2 || shown.iter().any(|l| !l.eq_ignore_ascii_case(&want)) { Some(format!("printed {shown:?}, expected {want} twice")) } else { None }
+            }
+            Err((sig, what)) => Some(format!("{sig}: {what}")),
+        }));
+    }
     let progs = programs13();
     let pres = prehistories();
     let tier = if case["tier"].as_str() == Some("thorough") { Tier::Thorough } else { Tier::Quick };
